@@ -259,7 +259,7 @@ fn make_record(ch: &[u32], variant: u8, which: u8, picks: &[u8], t: usize) -> Va
     let in_include = variant % 5 == 1;
     if variant % 4 == 2 {
         // macros in play: object-like and function-like, used by an appended function
-        text.push_str("#define TWICE_ZZ(x) ((x) + (x))\n#define LIMIT_ZZ 12\nint macro_user_zz(int a) {\n    return TWICE_ZZ(a) + LIMIT_ZZ;\n}\n");
+        text.push_str("#define TWICE_ZZ(x) ((x) + (x))\n#define LIMIT_ZZ 12\n#define ZERO_ZZ() 7\n#define PAIR_ZZ(x, y) ((x) * (y))\nint macro_user_zz(int a) {\n    return TWICE_ZZ(a) + LIMIT_ZZ + ZERO_ZZ() + PAIR_ZZ(a, ZERO_ZZ()) + TWICE_ZZ(PAIR_ZZ(a, 3));\n}\n");
     }
     text.insert_str(0, "#define BAD_MACRO_ZZ undefined_in_macro_zz = 3\n");
     if inject {
@@ -282,7 +282,7 @@ fn make_record(ch: &[u32], variant: u8, which: u8, picks: &[u8], t: usize) -> Va
 }
 
 pub fn run(ctx: &mut Ctx) {
-    ctx.rule = "Generated programs (accepted, or rejected through one injected erroneous statement from an 8-entry catalogue incl. an error inside a macro expansion; with and without an include file holding the error; with object- and function-like macros) x 6 trivia variants: at every existing blank/newline and on both sides of ( ) [ ] { } ; , a random choice of space, tabs, newlines, // and /* */ comments, backslash-newline splices and CRLF is inserted (never directly after < or >, never between a macro name and its parameter list; directive lines only get horizontal trivia and splices). Accepted: sources, stages, metadata and state identical. Rejected: still rejected with the same message. Located diagnostics x k in {1,2,7,50} blank or comment lines at the top of the file holding the error: same file, line + k, same column and message; lines added in other files do not move it. Non-trivial = >= 10 insertion points used with >= 3 trivia kinds, and for diagnostics a located error. Distinct = hash of the record.".into();
+    ctx.rule = "Generated programs (accepted, or rejected through one injected erroneous statement from an 8-entry catalogue incl. an error inside a macro expansion; with and without an include file holding the error; with object-like macros and function-like macros of 0, 1 and 2 parameters, also nested) x 6 trivia variants: at every existing blank/newline and on both sides of ( ) [ ] { } ; , a random choice of space, tabs, newlines, // and /* */ comments, backslash-newline splices and CRLF is inserted (never directly after < or >, never between a macro name and its parameter list; directive lines only get horizontal trivia and splices). Accepted: sources, stages, metadata and state identical. Rejected: still rejected with the same message. Located diagnostics x k in {1,2,7,50} blank or comment lines at the top of the file holding the error: same file, line + k, same column and message; lines added in other files do not move it. Non-trivial = >= 10 insertion points used with >= 3 trivia kinds, and for diagnostics a located error. Distinct = hash of the record.".into();
     if !ctx.replay_tier(&check_record) {
         return;
     }
